@@ -5,6 +5,8 @@ import Rustemo.Driver.Regen
 import Rustemo.Driver.Cli
 import Rustemo.Driver.Resolve
 import Rustemo.Driver.Gen
+import Rustemo.Driver.Front
+import Rustemo.Driver.Ast
 import Rustemo.Model.Canon
 import Rustemo.Model.CertComplete
 import Rustemo.Model.Core
@@ -88,6 +90,8 @@ def handle (st : DState) (line : String) : DState × String :=
   | "forest" => (st, Rustemo.Forest.handleForest rest)
   | "cli" => (st, handleCli rest)
   | "regen" => (st, Rustemo.Regen.handleRegen rest)
+  | "front" => (st, Rustemo.Front.handleFront rest)
+  | "ast" => (st, Rustemo.Ast.handleAst rest)
   | "rawdet" => (st, if st.dump.table.rawDeterministic st.dump.grammar then "1" else "0")
   | "lr" =>
     match rest.splitOn " #" with
